@@ -73,10 +73,10 @@ func HarnessC08(fam, nT, nV, convCode, form, filt int) {
 	// the target also produces outputs so that the output filter has subjects, and
 	// (symbolically) declares a final error, which is not an output
 	w.Target.Out = []hLabel{{T: hTP2}, {T: hTP3}}
-	if vnBool("namedOutput") {
+	if filt >= 2 && vnBool("namedOutput") {
 		w.Target.Out[0].Name = "o" // named outputs are outputs too (struct forms only)
 	}
-	if vnBool("targetHasErr") {
+	if filt >= 2 && vnBool("targetHasErr") {
 		w.Target.HasErr = true
 	}
 	// each name denotes a single type
